@@ -73,8 +73,8 @@ type ethAcct struct {
 	nonce uint64
 }
 
-// gen builds the transactions of one input.
-type gen struct {
+// txGen builds the transactions of one input.
+type txGen struct {
 	r      *rand.Rand
 	book   *account.Account
 	accts  []*account.Account
@@ -87,8 +87,8 @@ type gen struct {
 	count     func(string)
 }
 
-func newGen(r *rand.Rand, count func(string)) *gen {
-	g := &gen{r: r, book: account.NewAccount(""), nonce: 1000, count: count}
+func newGen(r *rand.Rand, count func(string)) *txGen {
+	g := &txGen{r: r, book: account.NewAccount(""), nonce: 1000, count: count}
 	for _, s := range schemes {
 		g.accts = append(g.accts, account.NewAccount(s))
 	}
@@ -104,7 +104,7 @@ func newGen(r *rand.Rand, count func(string)) *gen {
 	return g
 }
 
-func (g *gen) newMulti(idx []int, m int) *multiAcct {
+func (g *txGen) newMulti(idx []int, m int) *multiAcct {
 	ma := &multiAcct{m: m}
 	var pks []keypair.PublicKey
 	for _, i := range idx {
@@ -119,11 +119,11 @@ func (g *gen) newMulti(idx []int, m int) *multiAcct {
 	return ma
 }
 
-func (g *gen) bookKeyHex() string {
+func (g *txGen) bookKeyHex() string {
 	return hex.EncodeToString(keypair.SerializePrivateKey(g.book.PrivateKey))
 }
 
-func (g *gen) track() []string {
+func (g *txGen) track() []string {
 	var t []string
 	t = append(t, g.book.Address.ToHexString())
 	for _, a := range g.accts {
@@ -139,7 +139,7 @@ func (g *gen) track() []string {
 	return t
 }
 
-func (g *gen) mtx(code []byte, gasPrice, gasLimit uint64) *types.MutableTransaction {
+func (g *txGen) mtx(code []byte, gasPrice, gasLimit uint64) *types.MutableTransaction {
 	g.nonce++
 	return &types.MutableTransaction{GasPrice: gasPrice, GasLimit: gasLimit, TxType: types.InvokeNeo, Nonce: g.nonce,
 		Payload: &payload.InvokeCode{Code: code}}
@@ -180,7 +180,7 @@ func rawOf(tx *types.MutableTransaction) string {
 	return hex.EncodeToString(t.ToArray())
 }
 
-func (g *gen) gas() (uint64, uint64) {
+func (g *txGen) gas() (uint64, uint64) {
 	if g.r.Intn(3) == 0 {
 		return 0, 20000 + uint64(g.r.Intn(5))*10000
 	}
@@ -196,7 +196,7 @@ func transferCode(token common.Address, sts []*ont.TransferState) []byte {
 }
 
 // fundingBlock: the bookkeeper pays ONT and ONG to every account the generator will use.
-func (g *gen) fundingBlock() []TxSpec {
+func (g *txGen) fundingBlock() []TxSpec {
 	var dst []common.Address
 	for _, a := range g.accts {
 		dst = append(dst, a.Address)
@@ -227,14 +227,14 @@ func (g *gen) fundingBlock() []TxSpec {
 	return out
 }
 
-func (g *gen) token() common.Address {
+func (g *txGen) token() common.Address {
 	if g.r.Intn(2) == 0 {
 		return nutils.OntContractAddress
 	}
 	return nutils.OngContractAddress
 }
 
-func (g *gen) anyAddr() common.Address {
+func (g *txGen) anyAddr() common.Address {
 	switch g.r.Intn(4) {
 	case 0:
 		return g.multis[g.r.Intn(len(g.multis))].addr
@@ -247,10 +247,42 @@ func (g *gen) anyAddr() common.Address {
 	}
 }
 
+func (g *txGen) deployTx(counter bool, gp uint64) TxSpec {
+	var code []byte
+	kind := "deploy:counter"
+	if counter {
+		code = counterContract(byte(g.r.Intn(256)))
+	} else {
+		kind = "deploy:witness"
+		code = witnessContract(g.anyAddr())
+	}
+	dc, err := payload.NewDeployCode(code, payload.NEOVM_TYPE, "c", "1", "a", "e", "d")
+	if err != nil {
+		panic(err)
+	}
+	a := g.accts[g.r.Intn(len(g.accts))]
+	g.nonce++
+	tx := &types.MutableTransaction{GasPrice: gp, GasLimit: 30000000, TxType: types.Deploy, Nonce: g.nonce, Payload: dc, Payer: a.Address}
+	if gp == 0 {
+		tx.GasLimit = 20000
+	}
+	signSingle(tx, a)
+	if counter {
+		g.counters = append(g.counters, dc.Address())
+	} else {
+		g.witnesses = append(g.witnesses, dc.Address())
+	}
+	return TxSpec{rawOf(tx), kind}
+}
+
 // randomTx draws one transaction; deploys are remembered so that later blocks can invoke them.
-func (g *gen) randomTx() TxSpec {
+func (g *txGen) randomTx() TxSpec {
 	gp, gl := g.gas()
-	switch k := g.r.Intn(14); k {
+	k := g.r.Intn(15)
+	if k == 5 && g.r.Intn(2) == 0 {
+		k = 0
+	}
+	switch k {
 	case 0, 1: // single-signer native transfer, every key type
 		a := g.accts[g.r.Intn(len(g.accts))]
 		amt := uint64(1 + g.r.Intn(50))
@@ -296,35 +328,11 @@ func (g *gen) randomTx() TxSpec {
 		signSingle(tx, p)
 		return TxSpec{rawOf(tx), "transfer:unauthorized"}
 	case 6: // deploy
-		var code []byte
-		kind := "deploy:counter"
-		if g.r.Intn(2) == 0 {
-			code = counterContract(byte(g.r.Intn(256)))
-		} else {
-			kind = "deploy:witness"
-			code = witnessContract(g.anyAddr())
-		}
-		dc, err := payload.NewDeployCode(code, payload.NEOVM_TYPE, "c", "1", "a", "e", "d")
-		if err != nil {
-			panic(err)
-		}
-		a := g.accts[g.r.Intn(len(g.accts))]
-		g.nonce++
-		tx := &types.MutableTransaction{GasPrice: gp, GasLimit: 30000000, TxType: types.Deploy, Nonce: g.nonce, Payload: dc, Payer: a.Address}
-		if gp == 0 {
-			tx.GasLimit = 20000
-		}
-		signSingle(tx, a)
-		if kind == "deploy:counter" {
-			g.counters = append(g.counters, dc.Address())
-		} else {
-			g.witnesses = append(g.witnesses, dc.Address())
-		}
-		return TxSpec{rawOf(tx), kind}
+		return g.deployTx(g.r.Intn(2) == 0, gp)
 	case 7, 8: // invoke a deployed contract (or an address nothing was deployed at)
 		var target common.Address
 		kind := "invoke:undeployed"
-		if n := len(g.counters) + len(g.witnesses); n > 0 && g.r.Intn(8) != 0 {
+		if n := len(g.counters) + len(g.witnesses); n > 0 && g.r.Intn(10) != 0 {
 			i := g.r.Intn(n)
 			if i < len(g.counters) {
 				target, kind = g.counters[i], "invoke:counter"
@@ -378,7 +386,7 @@ func (g *gen) randomTx() TxSpec {
 	}
 }
 
-func (g *gen) eipTx() TxSpec {
+func (g *txGen) eipTx() TxSpec {
 	e := g.eths[g.r.Intn(len(g.eths))]
 	chainID := big.NewInt(int64(config.DefConfig.P2PNode.EVMChainId))
 	price := new(big.Int).Mul(big.NewInt(2500), big.NewInt(constants.GWei))
@@ -411,12 +419,15 @@ func (g *gen) eipTx() TxSpec {
 }
 
 // chain builds a whole input: funding block, then nBlocks blocks of up to maxTx random transactions.
-func (g *gen) chain(nBlocks, maxTx int) *Input {
+func (g *txGen) chain(nBlocks, maxTx int) *Input {
 	in := &Input{Kind: "chain", BookKey: g.bookKeyHex(), Track: g.track(), Repeat: 3}
 	in.Blocks = append(in.Blocks, g.fundingBlock())
 	for b := 0; b < nBlocks; b++ {
 		n := g.r.Intn(maxTx + 1)
 		var blk []TxSpec
+		if b == 0 { // contracts for the later blocks to call
+			blk = append(blk, g.deployTx(true, 0), g.deployTx(false, 2500))
+		}
 		for i := 0; i < n; i++ {
 			blk = append(blk, g.randomTx())
 		}
@@ -454,7 +465,7 @@ func rawWithSigs(unsigned *types.MutableTransaction, sigs []types.RawSig) string
 // probeUnsortedMultisig (F2): block 1 funds the canonical 2-of-2 address of keys {a, b} and deploys a
 // contract recording CheckWitness(that address); block 2 spends from that address and invokes the
 // contract with a verification script listing the keys in the NON-canonical order.
-func (g *gen) probeUnsortedMultisig() *Input {
+func (g *txGen) probeUnsortedMultisig() *Input {
 	a, b := g.accts[0], g.accts[4]
 	pks := []keypair.PublicKey{a.PublicKey, b.PublicKey}
 	maddr, err := types.AddressFromMultiPubKeys(pks, 2)
@@ -506,7 +517,7 @@ func (g *gen) probeUnsortedMultisig() *Input {
 
 // probeOntfsErrors: one FsDeleteFiles call naming n files that do not exist: n entries in
 // Errors.ObjectErrors, serialised in map order into the event.
-func (g *gen) probeOntfsErrors(n int) *Input {
+func (g *txGen) probeOntfsErrors(n int) *Input {
 	var l ontfs.FileDelList
 	for i := 0; i < n; i++ {
 		l.FilesDel = append(l.FilesDel, ontfs.FileDel{FileHash: []byte(fmt.Sprintf("no-such-file-%02d", i))})
@@ -525,7 +536,7 @@ func (g *gen) probeOntfsErrors(n int) *Input {
 }
 
 // probeCycleDetector (F4): Serialize of a map with deep and shallow values.
-func (g *gen) probeCycleDetector() *Input {
+func (g *txGen) probeCycleDetector() *Input {
 	tx := g.mtx(cycleDetectorScript(4, 4), 2500, 60000)
 	tx.Payer = g.book.Address
 	signSingle(tx, g.book)
